@@ -87,7 +87,7 @@ class StockSim(Engine):
 
     def tasks(self, prop, tier, seed):
         n = {"quick": 2500, "thorough": 60000}[tier]
-        ns = {"quick": 80, "thorough": 3000}[tier]
+        ns = {"quick": 80, "thorough": 2000}[tier]
         return [{"kind": "hist", "idx": k} for k in range(n)] + [{"kind": "sweep", "idx": k} for k in range(ns)]
 
     def budget(self, prop, tier):
@@ -158,7 +158,7 @@ class StockSim(Engine):
         res0 = self.execute(probe, prop)
         n = res0.get("line_counts", {}).get(j, 0)
         points = list(range(1, n + 1))
-        cap = 60 if tier == "quick" else 2500
+        cap = 60 if tier == "quick" else 800
         exhaustive = len(points) <= cap
         if not exhaustive:
             points = sorted(rng.sample(points, cap))
